@@ -610,6 +610,31 @@ def _complementary(fn, tv, vv, later_is_val):
             if not _closure_subset_of_indices(fn, b):
                 return None, f"`{unparse(b)}` is not visibly a sub-selection of self.indices"
             return True, f"{an} = indices \\ {bn}; {bn} ⊆ indices"
+    # np.delete idiom: `np.delete(self.indices, np.s_[S])` is the complement of `self.indices[S]` — of the FULL selection S.  The other side must be exactly that
+    # selection; a side that is additionally truncated / rebound (`sel = sel[:n]`) leaves the removed items in neither set.
+    def delete_of(e):
+        if isinstance(e, ast.Name):
+            dd = [x for x in definitions(fn, e.id) if isinstance(x, ast.AST)]
+            return delete_of(dd[0]) if len(dd) == 1 else None
+        if isinstance(e, ast.Call) and call_name(e) == "np.delete" and len(e.args) >= 2 and unparse(e.args[0]) == "self.indices":
+            sl = e.args[1]
+            if isinstance(sl, ast.Subscript) and unparse(sl.value) in ("np.s_", "np.index_exp"):
+                return unparse(sl.slice)
+            return unparse(sl)
+        return None
+    for a, b, an, bn in ((tv, vv, "train", "val"), (vv, tv, "val", "train")):
+        S = delete_of(a)
+        if S is None:
+            continue
+        bdefs = [x for x in definitions(fn, b.id) if isinstance(x, ast.AST)] if isinstance(b, ast.Name) else [b]
+        full = [x for x in bdefs if isinstance(x, ast.Subscript) and unparse(x.value) == "self.indices" and unparse(x.slice) == S]
+        narrowed = [x for x in bdefs if isinstance(x, ast.Subscript) and isinstance(b, ast.Name) and unparse(x.value) == b.id]
+        if full and narrowed:
+            return False, (f"{an} = np.delete(self.indices, [{S}]) is the complement of the FULL selection self.indices[{S}], but {bn} = `{unparse(b)}` is additionally cut down "
+                           f"(`{unparse(narrowed[0])[:40]}`): the items that the truncation removes are in neither set — those patterns are never visited")
+        if full and len(bdefs) == 1:
+            return True, f"{an} = indices without [{S}]; {bn} = indices[{S}]"
+        return None, f"{an} = np.delete(self.indices, [{S}]), {bn} = `{unparse(b)}`"
     # mask idiom: indices[m] / indices[~m]
     def mask_of(e):
         if isinstance(e, ast.Name):
